@@ -25,6 +25,7 @@ META = {
         "for Address values, x != NON_DEV_ADDR implies x.type != '--' (Address.__eq__ compares ids; '--:------' is the only valid id of that type)",
     ],
 }
+META["explanation"] += ' C01 also models IndexError from constant/range-bounded indexes into lists and tuples (seqlen.py): each site on the receive path is proven in bounds or reported.'
 
 
 def check(ctx: Ctx) -> list[RuleResult]:
